@@ -169,6 +169,7 @@ class SWorldMonitor:
         ev = o["E"]
         if any("PANIC" in e for e in ev):
             v.append(("C09", "panic", f"panic in the receive loop on `{op}`"))
+            v.append(("C15", "panic", f"panic in the receive loop on `{op}`"))
         tunnel_err = [e for e in ev if e.startswith("serve-returned")]
         for e in ev:
             if e.startswith("returned "):
